@@ -14,6 +14,9 @@ def addVal : Pc → Option Elem
   | .slowStore v _ _ | .slowUnlock v _ _ | .addWrite v _ _ => some v
   | _ => none
 
+theorem base_step (hs : Step s t s') : s'.base = s.base := by
+  cases hs <;> rfl
+
 theorem hist_mono_step (hs : Step s t s') : ∀ e, e ∈ s.hist → e ∈ s'.hist := by
   cases hs <;> intro e he <;> simp [he]
 
